@@ -156,6 +156,7 @@ contract("esutil.sfile.SFile.open#append-to-a-missing-file", runtime_name="esuti
                   " and self._robj.mode == 'w' and self._robj.filename == filename and self._delim == delim"},
          modifies=["self"],
          callee_contracts={"Recfile.__init__": "esutil.recfile.Util.Recfile.__init__#opened", "SFile.read_header": "esutil.sfile.SFile.read_header"},
+         inline_calls=["esutil.sfile.SFile.close"],
          props=["C03"], runtime=False)
 
 contract("esutil.sfile.SFile.open#overwrite", runtime_name="esutil.sfile.SFile.open",
@@ -165,6 +166,7 @@ contract("esutil.sfile.SFile.open#overwrite", runtime_name="esutil.sfile.SFile.o
                   " and self._robj.mode == 'w' and self._robj.filename == filename and self._delim == delim"},
          modifies=["self"],
          callee_contracts={"Recfile.__init__": "esutil.recfile.Util.Recfile.__init__#opened", "SFile.read_header": "esutil.sfile.SFile.read_header"},
+         inline_calls=["esutil.sfile.SFile.close"],
          props=["C03"], runtime=False)
 
 
@@ -206,3 +208,19 @@ contract("esutil.sfile.SFile._write_header#create", runtime_name="esutil.sfile.S
          modifies=["self"],
          inline_calls=["esutil.sfile.SFile._make_header", "esutil.sfile.SFile._get_size_string"],
          props=["C03"], runtime=False)
+
+
+# ------------------------------------------------------------------------------------------------ a closed handle is a blank handle
+contract("esutil.recfile.Util.Recfile.close#handle", runtime_name="esutil.recfile.Util.Recfile.close",
+         params=dict(self=_RECF), assumed=True, runtime=False,
+         why_assumed="closes the C++ file object (flush + fclose); no effect on the SFile object that owns it",
+         props=["C03", "C01"])
+contract("esutil.sfile.SFile.close",
+         params=dict(self="obj:SFile{_robj:%s,_hdr:%s,_size:int,_dtype:sdtype[a:int,b:int],_descr:opaque,_delim:opt[str],_mode:str,"
+                          "_filename:str,_data_start:int,_padnull:bool,_ignorenull:bool}" % (_RECF, _HDR)),
+         ensures={"nothing-of-the-closed-file-is-kept: a handle opened again for another file starts blank (no header, no dtype, no rows)":
+                  "self._hdr is None and self._dtype is None and self._descr is None and self._size == 0 and self._robj is None"
+                  " and self._filename is None and self._mode is None and self._delim is None and self._data_start is None"},
+         modifies=["self"],
+         callee_contracts={"Recfile.close": "esutil.recfile.Util.Recfile.close#handle"},
+         props=["C03", "C01"], runtime=False)
